@@ -110,3 +110,64 @@ for _fn, _rule in (("filter_corner_knees", "(not %s) or IoU(knees[i]) < t" % HAS
             ],
         )},
     )
+
+
+# ================================================================== C12: cluster filtering (left / linear / right ranking modes)
+RANKING = "Enum[kneeliverse.knee_ranking.ClusterRanking]"
+C["kneeliverse.knee_ranking.smooth_ranking"] = dict(
+    mode="U", summary=True, params={"points": PTS, "knees": "Seq[Int]", "t": RANKING}, returns="Seq[Real]",
+    requires=["len(knees) >= 1"], returns_expr="ufa('SmoothRank', 'Real', len(knees), points, knees, t)", ensures=[])
+from contracts.knee_ranking import C as _KR
+C["kneeliverse.knee_ranking.rank"] = _KR["kneeliverse.knee_ranking.rank"]
+
+LAB = "ufa('Clust', 'Int', len(knees), clustering, points[knees], t)"
+SMR = "ufa('SmoothRank', 'Real', len(current_cluster), points, current_cluster, method)"
+WIT = "ufa('ClustPos', 'Int', len(knees), clustering, points[knees], t)"
+# abstract contract of the clustering parameter = the C11 postcondition (labels start at 0, step 0/1, hence contiguous runs and every
+# label up to the last one occurs - the last clause is the discrete intermediate-value consequence, proved as lemma labels_onto)
+CLUSTERING = dict(
+    params={"a0": PTS, "a1": "Real"}, returns="Seq[Int]",
+    requires=["len(a0) >= 2", "forall2(0, len(a0), lambda a, b: a0[a][0] < a0[b][0])", "a1 > 0"],
+    returns_expr="ufa('Clust', 'Int', len(a0), _self, a0, a1)",
+    ensures=["result[0] == 0",
+             "forall(1, len(result), lambda i: result[i] - result[i-1] == 0 or result[i] - result[i-1] == 1)",
+             "forall2(0, len(result), lambda p, q: result[p] <= result[q])",
+             # "every label up to the last occurs", in Skolem form (ClustPos[v] is a position carrying label v)
+             "forall(0, result[len(result)-1] + 1, lambda v: 0 <= ufa('ClustPos', 'Int', len(a0), _self, a0, a1)[v] and ufa('ClustPos', 'Int', len(a0), _self, a0, a1)[v] < len(result) and result[ufa('ClustPos', 'Int', len(a0), _self, a0, a1)[v]] == v)"],
+)
+C["kneeliverse.postprocessing.filter_clusters#ranked"] = dict(
+    function="kneeliverse.postprocessing.filter_clusters", mode="U", owner="C12",
+    params={"points": PTS, "knees": "Seq[Int]", "clustering": "Fn", "t": "Real", "method": RANKING}, returns="Seq[Int]",
+    locals={"filtered_knees": "Seq[Int]"},
+    ghost_vars={"SEL": "Seq[Int]"},
+    callables={"clustering": CLUSTERING},
+    requires=["not (method is kr.ClusterRanking.hull)", "t > 0", "len(knees) >= 2",
+              "forall2(0, len(points), lambda a, b: points[a][0] < points[b][0])",
+              "forall2(0, len(knees), lambda a, b: knees[a] < knees[b])",
+              "forall(0, len(knees), lambda k: 1 <= knees[k] and knees[k] <= len(points) - 2)"],      # interior knees
+    ensures=[
+        "len(result) == (%s)[len(knees)-1] + 1" % LAB,                                                 # one kept knee per cluster
+        "forall(0, len(result), lambda j: 0 <= SEL[j] and SEL[j] < len(knees) and result[j] == knees[SEL[j]] and (%s)[SEL[j]] == j)" % LAB,
+        "forall2(0, len(result), lambda a, b: result[a] < result[b])",                                  # strictly increasing subset
+    ],
+    after={"current_cluster": ["0 <= (%s)[i] and (%s)[i] < len(knees) and clusters[(%s)[i]] == i" % (WIT, WIT, WIT),
+                               "(clusters == i)[(%s)[i]]" % WIT, "len(current_cluster) >= 1"],
+           # the kept member of a multi-member cluster has the maximum smoothed ranking score of its cluster (skipped on the
+           # single-member path, where idx does not exist)
+           "best_knee": ["forall(0, len(current_cluster), lambda q: (%s)[q] <= (%s)[idx])" % (SMR, SMR),
+                         "best_knee == current_cluster[idx]"]},
+    loops={0: dict(
+        inv=[
+            "len(clusters) == len(knees) and max_cluster == clusters[len(knees)-1]",
+            "forall(0, len(knees), lambda p: clusters[p] == (%s)[p])" % LAB,
+            "len(filtered_knees) == _it0",
+            "forall(0, _it0, lambda j: 0 <= SEL[j] and SEL[j] < len(knees) and filtered_knees[j] == knees[SEL[j]] and clusters[SEL[j]] == j)",
+            "forall2(0, _it0, lambda a, b: filtered_knees[a] < filtered_knees[b])",
+        ],
+        ghost_end=["SEL = store(SEL, i, _last_mask_index[ite(len(current_cluster) > 1, idx, 0)])"],
+        hints=[
+            "best_knee == knees[_last_mask_index[ite(len(current_cluster) > 1, idx, 0)]]",
+            "clusters[_last_mask_index[ite(len(current_cluster) > 1, idx, 0)]] == i",
+        ],
+    )},
+)
